@@ -140,7 +140,7 @@ def walk(ctx, dom, cfp, fam, steps, ordN):
         op = POINT_OPS[rng.randrange(len(POINT_OPS))]
         a = pool[rng.randrange(len(pool))]
         b = pool[rng.randrange(len(pool))]
-        k = rng.choice((0, 1, 2, -1, n - 1, n, n + 1, rng.randrange(-2 * n, 3 * n)))
+        k = rng.choice((0, 1, 2, -1, n - 1, n, n + 1, rng.randrange(-2 * n, 3 * n), -(7 * n + 1), -(n * n) - 3, 9 * n + 2, -(1 << (n.bit_length() + 6)) - 1, (1 << (n.bit_length() + 7)) + 5))
         A, B = a.obj, b.obj
         before = state_of(A)
         hist.append("%s(%s%s)" % (op, before, "," + state_of(B) if op in ("add", "radd", "eq", "ne", "mul_add") else ""))
